@@ -51,13 +51,13 @@ CONTRACTS = {
         'ensures': ['self.store == cnil', 'self._numvar == 0']},
     (F_, 'FormulaP.new_block'): {
         'assumed': 'group allocation (C11): a one-dimensional block of n fresh variables starting after the current ones',
-        'params': {'label': 'any'}, 'requires': ['len(ranges) == 1', 'ranges[0] >= 0'],
+        'params': {'label': 'any'}, 'supports': ['len(ranges) == 1'], 'requires': ['ranges[0] >= 0'],
         'modifies': ['self._numvar'], 'returns': 'obj:Block1',
         'ensures': ['result.off == old(self._numvar)', 'result.n == ranges[0]', 'self._numvar == old(self._numvar) + ranges[0]']},
     (V_, 'Block1.__call__'): {
         'assumed': 'block call contract (C11, proved for BlockOfVariables._unsafe_index_to_lit): x(i) = offset + i',
         'params': {}, 'returns_expr': 'self.off + index[0]',
-        'requires': ['len(index) == 1', '1 <= index[0]', 'index[0] <= self.n']},
+        'supports': ['len(index) == 1'], 'requires': ['1 <= index[0]', 'index[0] <= self.n']},
     (F_, 'FormulaP.add_clause'): {
         'assumed': 'interface meaning of add_clause (proved for both classes in formula_cnf.py / formula_opb.py)',
         'params': {'clause': 'iseq', 'check': 'bool'}, 'ghost_params': {'a': 'asg'},
